@@ -67,10 +67,10 @@ def _v(key, msg, **kw):
     return d
 
 
-def call(fn):
-    """Run fn under warning suppression; return (outcome, exception)."""
+def call(fn, filt="ignore"):
+    """Run fn under a warning filter ("ignore", or "error" = python -W error); return (outcome, exception)."""
     with warnings.catch_warnings():
-        warnings.simplefilter("ignore")
+        warnings.simplefilter(filt)
         try:
             fn()
             return "returned", None
@@ -282,6 +282,12 @@ def case_prepare(case):
                         counters["allowed_conversions"] += 1
                         if outcome not in ("returned", "PrepareDumpError", "DumpError"):
                             viols.append(_v("wrong-exception", f"{tag}: {outcome} ({exc})"))
+                        # the same call with warnings turned into errors (python -W error): the announcement of a conversion
+                        # then surfaces as an exception inside the call and must still come out as one of the documented types
+                        outcome, exc = call(fn, "error")
+                        counters["calls_warnings_as_errors"] = counters.get("calls_warnings_as_errors", 0) + 1
+                        if outcome not in ("returned", "PrepareDumpError", "DumpError"):
+                            viols.append(_v("wrong-exception", f"{tag}, warnings as errors: {outcome} ({exc})"))
                         if audit.open_fds_on(target):
                             viols.append(_v("file-left-open", f"{tag}: descriptor left open"))
                     feats.append(f"prepare:{fmt}:{label}:allow={allow}:pre={pre}")
